@@ -17,6 +17,17 @@ let letter (e : n) : string =
   match int_of_n e with 1 -> "T" | 2 -> "S" | 3 -> "B" | k when k >= 16 -> "I" | _ -> "?"
 let conv_kind (e : n) : string =
   match int_of_n e with 1 -> "Trailing" | 2 -> "Short" | 4 -> "Illegal" | 5 -> "BadEscape" | 6 -> "TooLong" | _ -> "Other"
+let scan2_kind (e : n) : string =
+  match int_of_n e with 3 -> "ShortBuf" | 7 -> "BadSymbol" | 8 -> "NonAscii" | _ -> conv_kind e
+let sym_obs = function
+  | SChar c -> Printf.sprintf "c%x" (int_of_n c)
+  | SSimple c -> Printf.sprintf "s%x" (int_of_n c)
+  | SDecimal c -> Printf.sprintf "d%x" (int_of_n c)
+let join l = if l = [] then "-" else String.concat "," l
+let encw f room arg =
+  match f (n_of_int (int_of_string room)) (bytes_of_hex arg) with
+  | Ok ((held, _), ok) -> (if ok then "Ok " else "Err ") ^ arg_of_text held
+  | Err _ -> "Err?" | Panic _ -> "Panic" | OutOfFuel -> "OutOfFuel"
 let str_kind (e : n) : string =
   match int_of_n e with 6 -> "TooLong" | _ -> kind e
 let show_res errk f (o : 'a outcome) : string =
@@ -81,6 +92,16 @@ let handle = function
   | ["hashscan"; a] -> show_res conv_kind hex_of_bytes (c18_hashscan (text_of_arg a))
   | ["hashdisp"; a] -> let b = bytes_of_hex a in
       if List.length b > 255 then "Err TooLong" else show_res kind arg_of_text (c18_hashdisp b)
+  | ["encw64"; r; a] -> encw c18_encw64 r a
+  | ["encw16"; r; a] -> encw c18_encw16 r a
+  | ["soct"; a] -> show_res scan2_kind hex_of_bytes (c18_soct (text_of_arg a))
+  | ["scstr"; a] -> show_res scan2_kind hex_of_bytes (c18_scstr (text_of_arg a))
+  | ["sstr"; a] -> show_res scan2_kind hex_of_bytes (c18_sstr (text_of_arg a))
+  | ["sascii"; a] -> show_res scan2_kind hex_of_bytes (c18_sascii (text_of_arg a))
+  | ["ssym"; a] -> show_res scan2_kind (fun l -> join (List.map sym_obs l)) (c18_ssym (text_of_arg a))
+  | ["smark"; a] -> "Ok " ^ string_of_bool (c18_smark (text_of_arg a))
+  | "scent" :: l -> show_res scan2_kind hex_of_bytes (c18_scent (List.map text_of_arg l))
+  | "sesym" :: l -> show_res scan2_kind (fun l -> join (List.map (function Some y -> sym_obs y | None -> "E") l)) (c18_sesym (List.map text_of_arg l))
   | "conv64" :: l -> conv c18_conv64 l
   | "conv32" :: l -> conv c18_conv32 l
   | "conv16" :: l -> conv c18_conv16 l
